@@ -64,7 +64,10 @@ static void setup_target(zcase *c, ztarget *t) {
     zck->lead_size = c->doff;
     zck->header_length = 0;
     for(int i = 0; i < c->nch; i++) {
-        if(!index_new_chunk(zck, &zck->index, (char*)c->digest[i], c->dsz, NULL, c->len[i], c->len[i], NULL,
+        /* the uncompressed size plays no role on the download path: give it values that differ from
+           the stored size (larger for odd, smaller for even chunks) so that any use of it shows */
+        size_t orig = c->len[i] == 0 ? 0 : ((i % 2) ? c->len[i] * 3 + 5 : c->len[i] / 2 + 1);
+        if(!index_new_chunk(zck, &zck->index, (char*)c->digest[i], c->dsz, NULL, c->len[i], orig, NULL,
                             c->flag0[i] == 1)) { printf("BADCASE index\n"); exit(2); }
         t->chk[i] = zck->index.last;
         t->chk[i]->valid = c->flag0[i] == 2 ? -1 : c->flag0[i];
